@@ -190,7 +190,7 @@ func probeHooks() (all bool, missing []string) {
 // ---------------------------------------------------------------- generators
 
 func randomCfg(r *c.Rng) Cfg {
-	cfg := Cfg{Max: c.Pick(r, []int{0, 1, 1, 2, 2, 3, 3, 4, -1}), SMax: -1, TTLSec: r.Range(1, 3)}
+	cfg := Cfg{Max: c.Pick(r, []int{0, -1, 1, 1, 1, 2, 2, 2, 2, 3, 3, 3, 3, 4, 4}), SMax: -1, TTLSec: r.Range(1, 3)}
 	if r.Chance(1, 5) {
 		cfg.SMax = r.Range(0, 3)
 	}
@@ -223,15 +223,15 @@ func genRandom(r *c.Rng, hooked bool) Case {
 	w := s.w
 	ttl := int64(cfg.TTLSec) * sec
 	sticky := r.Range(-1, len(cfg.Groups))
-	steps := r.Range(4, 28)
+	steps := r.Range(6, 40)
 	var lastArrival int64
 	var now int64
 	for i := 0; i < steps; i++ {
-		if w.ticking && r.Chance(3, 5) {
+		if w.ticking && r.Chance(7, 10) {
 			if w.atSignal {
 				s.do(Op{K: OpSignal})
 			} else {
-				b := r.Chance(1, 2)
+				b := r.Chance(3, 5)
 				s.do(Op{K: OpAnswer, B: b})
 				if b && !hooked {
 					s.do(Op{K: OpSignal})
@@ -241,7 +241,7 @@ func genRandom(r *c.Rng, hooked bool) Case {
 		}
 		x := r.Intn(100)
 		switch {
-		case x < 35 || (x < 60 && len(w.order) < 2):
+		case x < 30 || (x < 55 && len(w.order) < 2):
 			n := s.ng
 			s.ng++
 			g := randomGroup(r, &cfg, sticky)
@@ -251,7 +251,7 @@ func genRandom(r *c.Rng, hooked bool) Case {
 				s.do(Op{K: OpArrive, R: n, G: g})
 			}
 			lastArrival = now
-		case x < 45:
+		case x < 38:
 			var parked []int
 			for _, n := range w.order {
 				if w.reqs[n].parked {
@@ -261,14 +261,14 @@ func genRandom(r *c.Rng, hooked bool) Case {
 			if len(parked) > 0 {
 				s.do(Op{K: OpEnter, R: c.Pick(r, parked)})
 			}
-		case x < 65:
+		case x < 64:
 			if !w.ticking {
 				s.do(Op{K: OpTick})
 			}
-		case x < 78:
-			// instants around a time-to-live edge
-			d := c.Pick(r, []int64{1, sec / 10, sec / 2, ttl - 1, ttl, ttl + 1})
-			if r.Chance(1, 2) {
+		case x < 76:
+			// mostly short steps; sometimes an instant around a time-to-live edge
+			d := c.Pick(r, []int64{1, sec / 10, sec / 10, sec / 2, sec / 2, ttl - 1, ttl, ttl + 1})
+			if r.Chance(1, 3) {
 				if e := lastArrival + ttl - now + int64(r.Range(-1, 1)); e > 0 {
 					d = e
 				}
@@ -278,14 +278,14 @@ func genRandom(r *c.Rng, hooked bool) Case {
 			if r.Chance(2, 3) {
 				s.do(Op{K: OpScan})
 			}
-		case x < 86:
+		case x < 84:
 			s.do(Op{K: OpScan})
-		case x < 94:
+		case x < 93:
 			if hooked {
-				s.do(Op{K: OpGate, B: r.Chance(1, 3)})
+				s.do(Op{K: OpGate, B: r.Chance(1, 2)})
 			}
 		default:
-			if !w.ticking && r.Chance(1, 2) {
+			if !w.ticking && 3*i > 2*steps {
 				s.do(Op{K: OpDrain})
 			}
 		}
@@ -331,6 +331,8 @@ func namedSchedules() []scripted {
 			{K: OpScan}, {K: OpDrain}}},
 		{"drain-releases-all", two, []Op{
 			{K: OpArrive, R: 1, G: -1}, {K: OpArrive, R: 2, G: -1}, {K: OpArrive, R: 3, G: -1}, {K: OpDrain}}},
+		{"arrivals-around-drain", two, []Op{
+			{K: OpArrive, R: 1, G: -1}, {K: OpCheck, R: 2, G: -1}, {K: OpDrain}, {K: OpEnter, R: 2}, {K: OpArrive, R: 3, G: -1}}},
 		{"ttl-vs-success", one, []Op{
 			{K: OpArrive, R: 1, G: -1}, {K: OpTick}, {K: OpAdvance, D: 2*sec + 1}, {K: OpScan},
 			{K: OpAnswer, B: T}, {K: OpScan}, {K: OpSignal}, {K: OpScan}}},
@@ -454,14 +456,6 @@ func main() {
 		"distinct = distinct (settings, operations, observations); non-trivial = at least one admission, one " +
 		"rejection or time-out, and one refused head put back")
 
-	var k Case
-	if _, ok := o.ReplayCase(&k); ok {
-		hooked, _ := probeHooks()
-		record(o, "forced", replay(k, hooked && k.Hooked))
-		o.Finish()
-		return
-	}
-
 	hooked, missing := probeHooks()
 	if !hooked {
 		o.Note("yield points missing in the tree under check: " + strings.Join(missing, ", ") +
@@ -471,6 +465,15 @@ func main() {
 			Observed: "missing: " + strings.Join(missing, ", "), Case: map[string]any{"missing": missing}})
 	}
 
+	var k Case
+	if _, ok := o.ReplayCase(&k); ok {
+		if len(k.Ops) > 0 {
+			record(o, "forced", replay(k, hooked && k.Hooked))
+		}
+		o.Finish()
+		return
+	}
+
 	for _, sc := range namedSchedules() {
 		if k, ok := runScripted(sc, hooked); ok {
 			record(o, "forced", k)
@@ -478,7 +481,7 @@ func main() {
 	}
 	if hooked {
 		fams := mergeFamilies()
-		budget := o.Scale(260, 1<<30, 2000)
+		budget := o.Scale(900, 1<<30, 3000)
 		per := budget / len(fams)
 		fr := o.Rng.Fork(6)
 		for _, f := range fams {
@@ -497,7 +500,7 @@ func main() {
 			}
 		}
 	}
-	n := o.Scale(500, 6000, 4000)
+	n := o.Scale(2500, 25000, 8000)
 	hr := o.Rng.Fork(1)
 	for i := 0; i < n; i++ {
 		record(o, "histories", genRandom(hr, hooked))
